@@ -9,7 +9,8 @@ separators=(",", ":"))`, `str(·)`, `datetime.(utc)fromtimestamp(·).isoformat()
 `repr` of a bytes object, the filter's `json.dumps(·, cls=_DatetimeJSONEncoder)`.  Everything Eliot
 does with their results (escape replacement, re-indentation, field order, skip set, header, the
 `Not JSON` / `Not an Eliot message` fallbacks, the two `try/except` of `_main` with exactly the classes
-they catch, and every place where it would raise) is transliterated (tree at 36c5d35). -/
+they catch, the writes to stdout and their one fallback, and every place where it would raise) is
+transliterated (tree at 4ea2a53). -/
 namespace PP
 
 abbrev Text := List Nat
@@ -29,7 +30,7 @@ abbrev Fields := List (Text × JVal)
 
 /-- Exception classes that can leave the readers. -/
 inductive Exc where
-  | attributeError | typeError | keyError | valueError | overflowError | osError | recursionError | other
+  | attributeError | typeError | keyError | valueError | overflowError | osError | recursionError | unicodeEncodeError | other
 deriving DecidableEq, Repr, Inhabited
 
 /-- Result of `json.loads(line)`. -/
@@ -47,6 +48,8 @@ structure Env where
   loads : Bytes → Decoded                     -- json.loads
   reprBytes : Bytes → Text                    -- "{}".format(b)
   filterDumps : JVal → Except Exc Text        -- json.dumps(result, cls=_DatetimeJSONEncoder)
+  encodable : Text → Bool                     -- stdout's encoder accepts the text (UTF-8: no lone surrogate)
+  backslashreplace : Text → Text              -- s.encode(enc, "backslashreplace").decode(enc)
 
 /-! ## Text helpers (Python `str` methods used by the code) -/
 
@@ -223,21 +226,41 @@ deriving Inhabited
 
 /-- `except (TypeError, ValueError, OverflowError, OSError)` around the formatter call -/
 def caught (e : Exc) : Bool :=
-  e == .typeError || e == .valueError || e == .overflowError || e == .osError
+  e == .typeError || e == .valueError || e == .unicodeEncodeError || e == .overflowError || e == .osError
+
+/-- `stdout.write(s)`: the text written, or `UnicodeEncodeError` -/
+def write (E : Env) (s : Text) : Except Exc Text :=
+  if E.encodable s then .ok s else .error .unicodeEncodeError
+
+/-- the two report lines are written without any guard -/
+def report (E : Env) (mk : Text → Out) (s : Text) : Out :=
+  match write E s with
+  | .ok w => mk w
+  | .error e => .aborts e
+
+/-- `try: stdout.write(result)  except UnicodeEncodeError: stdout.write(<result with backslashreplace>)` (4ea2a53) -/
+def writeResult (E : Env) (s : Text) : Out :=
+  match write E s with
+  | .ok w => .formatted w
+  | .error _ =>
+    match write E (E.backslashreplace s) with
+    | .ok w => .formatted w
+    | .error e => .aborts e
 
 def cliLine (E : Env) (compact localTz : Bool) (line : Bytes) : Out :=
-  let notEliot := Out.notEliot (t "Not an Eliot message: " ++ E.reprBytes (rstripNl line) ++ [10, 10])
+  let notEliot := report E Out.notEliot (t "Not an Eliot message: " ++ E.reprBytes (rstripNl line) ++ [10, 10])
+  let notJson := report E Out.notJson (t "Not JSON: " ++ E.reprBytes (rstripNl line) ++ [10, 10])
   match E.loads line with
-  | .notJson => .notJson (t "Not JSON: " ++ E.reprBytes (rstripNl line) ++ [10, 10])
+  | .notJson => notJson
   | .raises e =>
     -- `except (ValueError, RecursionError)`
-    if e = .recursionError then .notJson (t "Not JSON: " ++ E.reprBytes (rstripNl line) ++ [10, 10]) else .aborts e
+    if e = .recursionError then notJson else .aborts e
   | .value (.obj m) =>
     -- `not isinstance(message, dict) or REQUIRED_FIELDS - set(message.keys())`
     if requiredFields.any (fun r => !has m r) then notEliot
     else
       match (if compact then compactFormat E m localTz else prettyFormat E m localTz) with
-      | .ok s => .formatted (s ++ [10])
+      | .ok s => writeResult E (s ++ [10])
       | .error e => if caught e then notEliot else .aborts e
   | .value _ => notEliot
 
